@@ -2,6 +2,7 @@ package kvql
 
 import (
 	"errors"
+	"fmt"
 	"strings"
 )
 
@@ -495,10 +496,38 @@ func (p *Parser) parseLimit() (*LimitStmt, error) {
 }
 
 // defaultFieldName is the name of a select field without `as`: the text of
-// its expression, with the names in it written bare. A name inside back
-// quotes cannot carry back quotes, `(N + 1)` must stay a possible spelling.
+// its expression with the names in it written bare, as field names always
+// were. A back-quoted name cannot carry back quotes, so `(N + 1)` must stay a
+// possible spelling of the field N + 1 (only names lose their back quotes,
+// not the text of string literals).
 func defaultFieldName(field Expression) string {
-	return strings.ReplaceAll(field.String(), "`", "")
+	switch e := field.(type) {
+	case *NameExpr:
+		return e.Data
+	case *BinaryOpExpr:
+		op := OperatorToString[e.Op]
+		if list, ok := e.Right.(*ListExpr); ok && op == "between" && len(list.List) == 2 {
+			return fmt.Sprintf("(%s BETWEEN %s AND %s)", defaultFieldName(e.Left), defaultFieldName(list.List[0]), defaultFieldName(list.List[1]))
+		}
+		return fmt.Sprintf("(%s %s %s)", defaultFieldName(e.Left), op, defaultFieldName(e.Right))
+	case *NotExpr:
+		return fmt.Sprintf("!(%s)", defaultFieldName(e.Right))
+	case *FunctionCallExpr:
+		args := make([]string, len(e.Args))
+		for i, arg := range e.Args {
+			args[i] = defaultFieldName(arg)
+		}
+		return fmt.Sprintf("%s(%s)", defaultFieldName(e.Name), strings.Join(args, ", "))
+	case *ListExpr:
+		items := make([]string, len(e.List))
+		for i, item := range e.List {
+			items[i] = defaultFieldName(item)
+		}
+		return fmt.Sprintf("(%s)", strings.Join(items, ", "))
+	case *FieldAccessExpr:
+		return fmt.Sprintf("%s[%s]", defaultFieldName(e.Left), defaultFieldName(e.FieldName))
+	}
+	return field.String()
 }
 
 func (p *Parser) findFieldInSelect(selStmt *SelectStmt, fieldName string, pos int) (Expression, error) {
